@@ -102,6 +102,11 @@ def run(tier, replay=None):
         if res["extra"].get("grid_unreached") and not ck.violations:
             ck.unproved("%d grid probes were never reached (a context template no longer nests as expected)" % res["extra"]["grid_unreached"],
                         {"broken": "grid context templates"})
+        nbase = res["distribution"].get("mutation=none", 0)
+        nrej = res["distribution"].get("base_design_rejected", 0)
+        if nrej > max(2, nbase // 50) and not ck.violations:
+            ck.unproved("%d of %d unmutated random designs are rejected by goa: the design generator left its envelope (or goa rejects valid designs)" % (nrej, nbase),
+                        {"broken": "near-valid stream: base designs must be accepted"})
         if total and not ck.violations:
             first = {}
             for k, v in mism.items():
